@@ -17,7 +17,7 @@ type RangeRemoval struct {
 	Range     *ast.RangeStmt
 	Assign    *ast.AssignStmt
 	X         string
-	Continues bool // the loop may run another iteration after the removal
+	Continues bool          // the loop may run another iteration after the removal
 	Via       *ast.CallExpr // removal happens inside this callee (interprocedural)
 	Stmt      ast.Stmt      // the statement containing Via
 }
